@@ -26,7 +26,11 @@ RULE = ('value / matrix: a pair of typed atoms (22 atomic types; constructor cal
         'freedom; pathlogic: and/or/not/if formulas whose operands are path expressions (absolute/descendant paths with '
         'empty or non-empty result, relative paths) evaluated on a 9-element document with each element as context item, '
         'directly, commuted, through De Morgan and inside a predicate over a node sequence, against truth values computed '
-        'in python on the ElementTree; tzhistory: the same caller-owned date/time objects passed as $variables to 2-3 '
+        'in python on the ElementTree; compat: general comparisons of 2.0/3.0/3.1 parsers with compatibility_mode=True between a single boolean, numbers, '
+        'strings, nodes, the empty sequence and sequences of up to 3 of them (boolean, number and string rules of XPath 2.0 '
+        '3.5.2); era: every ordered pair of 17-21 dateTime / 13-16 date values around the 1 BCE / 1 CE and 9999 / 10000 year '
+        'boundaries with order-swapping timezones, XSD 1.0 and 1.1 year numbering, 2.0 and 3.1 parsers, 12 operators; '
+        'tzhistory: the same caller-owned date/time objects passed as $variables to 2-3 '
         'successive rounds of all twelve comparisons under contexts whose implicit timezones differ, each round judged for '
         'its own timezone, objects must stay unchanged. non-trivial = cross-type pair, a sequence of length >= 2, NaN, untypedAtomic, or a timezone-less next to a '
         'timezoned value; distinct by (check, mode, timezone, operands / formula).')
@@ -43,7 +47,11 @@ ASSUMPTIONS = [
     'and / or: either operand\'s error is acceptable, a dominating false / true operand may hide the other operand\'s error',
     'xs:untypedAtomic against xs:QName in a general comparison is not judged (cast rules differ between versions)',
     'xs:hexBinary / xs:base64Binary ordering (lt le gt ge) exists in XPath 3.1 only; XPTY0004 before',
-    'year 0000 and negative years are not generated (XSD 1.0 / 1.1 differ; C11 covers the calendar)',
+    'negative years, year 0000 (XSD 1.1) and years above 9999 are generated only by the enumerated `era` sub-check, with the '
+    'XSD 1.0 (-0001 = 1 BCE) and XSD 1.1 (0000 = 1 BCE) year numbering chosen by the parser option xsd_version',
+    'compatibility mode (XPath 2.0 3.5.2): the boolean rule converts the other operand by its effective boolean value BEFORE '
+    'atomization (XPath 1.0 semantics: node sequence = true); node operands have non-empty text; booleans occur only as a '
+    'single operand (tests/test_xpath2_parser.py pins (false(), false()) = 1 as a type error)',
     'xs:float operands are exactly representable in binary32 (the reading precision does not matter)',
 ]
 FLOORS = {
@@ -51,6 +59,7 @@ FLOORS = {
     'general:multi': (0.40, 'general:case'), 'general:untyped': (0.15, 'general:case'),
     'order:triple-all-comparable': (0.50, 'order:triple'), 'ebv:multi': (0.10, 'ebv:case'), 'logic:with-error-atom': (0.15, 'logic:case'),
     'pathlogic:abs-first-then-relative@inner': (0.25, 'pathlogic:case'), 'pathlogic:inner-context': (0.70, 'pathlogic:case'),
+    'compat:boolean-vs-non-0-1': (0.25, 'compat:case'), 'compat:multi': (0.25, 'compat:case'), 'era:across-era': (0.30, 'era:pair'),
     'tzhistory:naive-vs-aware': (0.50, 'tzhistory:case'), 'tzhistory:timezone-changes': (0.60, 'tzhistory:case'),
 }
 
@@ -63,14 +72,24 @@ _PARSERS: dict = {}
 _ROOT = None
 
 
-def _parser(mode):
-    p = _PARSERS.get(mode)
+def _parser(mode, xsd='1.0', compat=False):
+    key = (mode, xsd, compat)
+    p = _PARSERS.get(key)
     if p is None:
         from elementpath import XPath1Parser, XPath2Parser
         from elementpath.xpath30 import XPath30Parser
         from elementpath.xpath31 import XPath31Parser
         cls = {'1.0': XPath1Parser, '2.0': XPath2Parser, '3.0': XPath30Parser, '3.1': XPath31Parser}[mode]
-        p = _PARSERS[mode] = cls(namespaces=dict(A.NAMESPACES)) if mode != '1.0' else cls()
+        if mode == '1.0':
+            p = cls()
+        else:
+            kw = {'namespaces': dict(A.NAMESPACES)}
+            if xsd != '1.0':
+                kw['xsd_version'] = xsd
+            if compat:
+                kw['compatibility_mode'] = True
+            p = cls(**kw)
+        _PARSERS[key] = p
     return p
 
 
@@ -82,13 +101,13 @@ def _root():
     return _ROOT
 
 
-def observe(mode, expr, tz=None, root=False):
+def observe(mode, expr, tz=None, root=False, xsd='1.0', compat=False):
     """-> ('bool', b) | ('empty',) | ('error', code) | ('escape', exc) | ('other', repr)"""
     from elementpath import XPathContext, ElementPathError
     try:
-        tok = _parser(mode).parse(expr)
+        tok = _parser(mode, xsd, compat).parse(expr)
         if root:
-            ctx = XPathContext(root=_root(), timezone=tz)
+            ctx = XPathContext(root=_root() if root is True else root, timezone=tz)
         else:
             ctx = XPathContext(root=None, item=1, timezone=tz)
         res = tok.get_results(ctx)
@@ -848,6 +867,137 @@ def judge_tzhistory(case, rec: Recorder | None = None) -> list[Disc]:
 
 
 # --------------------------------------------------------------------------
+# general comparisons of XPath 2.0+ parsers with compatibility_mode=True (XPath 2.0 3.5.2)
+# --------------------------------------------------------------------------
+_COMPAT_TEXTS = ['abc', '0', '1', '2', '12', '1.5', ' 7 ', 'true']
+_COMPAT_DOC = None
+
+
+def _compat_doc():
+    global _COMPAT_DOC
+    if _COMPAT_DOC is None:
+        import xml.etree.ElementTree as ET
+        r = ET.Element('r')
+        for t in _COMPAT_TEXTS:
+            ET.SubElement(r, 't').text = t
+        _COMPAT_DOC = r
+    return _COMPAT_DOC
+
+
+def _compat_item(it):
+    if it[0] == 'node':
+        return f'/r/t[{_COMPAT_TEXTS.index(it[1]) + 1}]'
+    return A.xpath_of(it)
+
+
+def judge_compat(case, rec: Recorder | None = None) -> list[Disc]:
+    mode, SA, SB = case['mode'], case['A'], case['B']
+    discs: list[Disc] = []
+    ta = '(' + ', '.join(_compat_item(x) for x in SA) + ')' if len(SA) != 1 else _compat_item(SA[0])
+    tb = '(' + ', '.join(_compat_item(x) for x in SB) + ')' if len(SB) != 1 else _compat_item(SB[0])
+
+    def kind(S):
+        if len(S) == 1 and S[0][0] == 'boolean':
+            return 'boolean'
+        ks = {('number' if x[0] in C.NUMERIC else x[0]) for x in S}
+        return ('empty' if not S else '+'.join(sorted(ks))) + ('*' if len(S) > 1 else '')
+
+    kinds = f'{kind(SA)},{kind(SB)}'
+    n = 0
+    for sym in case.get('gops') or GEN_OPS:
+        acc = C.compat_general(sym, SA, SB)
+        if acc is None:
+            continue
+        n += 1
+        expr = f'{ta} {sym} {tb}'
+        obs = observe(mode, expr, root=_compat_doc(), compat=True)
+        before = len(discs)
+        _judge_outcome(acc, obs, 'compat', kinds, sym, f'{mode} compat {expr}', discs)
+        if len(discs) > before:
+            # recorded causes (removed by proposed/C07/fix08.diff), each with a narrow input class x failure
+            sba, sbb = kind(SA) == 'boolean', kind(SB) == 'boolean'
+            other = SB if sba else SA
+            if (sba or sbb) and len(other) > 1 and other[0][0] == 'node' and obs == ('error', 'FORG0006'):
+                discs[before].bucket = f'C07/compat-boolean-rule-atomizes-first/{sym}'
+            elif (sba or sbb) and not other and obs == ('bool', False):
+                discs[before].bucket = f'C07/compat-boolean-rule-empty-operand/{sym}'
+            elif not (sba or sbb) and sym in ('=', '!=') and obs[0] == 'error' and obs[1] in ('XPTY0004', 'FORG0001') and \
+                    any((a[0] in C.NUMERIC) != (b[0] in C.NUMERIC) for a in SA for b in SB):
+                discs[before].bucket = f'C07/compat-number-rule-missing/{sym}'
+    if rec is not None:
+        sb = (len(SA) == 1 and SA[0][0] == 'boolean') or (len(SB) == 1 and SB[0][0] == 'boolean')
+        other = SB if (len(SA) == 1 and SA[0][0] == 'boolean') else SA
+        odd = sb and (len(other) != 1 or other[0][0] in ('string', 'node') or
+                      (other[0][0] in C.NUMERIC and other[0][1] not in ('0', '1')))
+        classes = ['compat:case', f'compat:mode-{mode}'] + (['compat:boolean-rule'] if sb else []) + \
+            (['compat:boolean-vs-non-0-1'] if odd else []) + (['compat:multi'] if len(SA) > 1 or len(SB) > 1 else [])
+        rec.case(['compat', mode, SA, SB], nontrivial=sb or len(SA) > 1 or len(SB) > 1 or kind(SA) != kind(SB), classes=classes, n=n,
+                 sample={'check': 'compat', 'mode': mode, 'A': ta, 'B': tb})
+    return discs
+
+
+# --------------------------------------------------------------------------
+# era boundary and other year boundaries with order-swapping timezones
+# --------------------------------------------------------------------------
+ERA_POOL = {
+    'dateTime': {
+        'both': ['0001-01-01T00:00:00+14:00', '-0001-12-31T10:00:00Z', '-0001-12-31T23:59:59-14:00', '0001-01-01T00:00:00Z',
+                 '0001-01-01T00:00:00', '-0001-12-31T23:00:00', '-0001-12-31T24:00:00Z', '-0002-12-31T23:00:00-05:00',
+                 '-0001-01-01T00:00:00+05:00', '0001-01-02T00:00:00+14:00', '9999-12-31T23:00:00-05:00',
+                 '10000-01-01T00:00:00+05:00', '10000-01-01T00:00:00Z', '9999-12-31T24:00:00Z', '9999-12-31T12:00:00Z',
+                 '0001-12-31T20:00:00-10:00', '0002-01-01T00:00:00+14:00'],
+        '1.0': ['-0001-02-29T12:00:00Z'],
+        '1.1': ['0000-12-31T10:00:00Z', '0000-01-01T00:00:00+14:00', '0000-02-29T00:00:00Z', '-0001-12-31T23:00:00-05:00'],
+    },
+    'date': {
+        'both': ['0001-01-01+14:00', '-0001-12-31Z', '-0001-12-31-10:00', '0001-01-01', '-0001-12-31', '0001-01-01Z',
+                 '-0002-12-31-14:00', '9999-12-31-12:00', '10000-01-01+12:00', '10000-01-01Z', '9999-12-31Z', '0001-12-31-14:00',
+                 '0002-01-01+14:00'],
+        '1.0': [],
+        '1.1': ['0000-12-31Z', '0000-12-31-10:00', '0000-01-01+14:00'],
+    },
+}
+
+
+def era_cases():
+    for xsd in ('1.0', '1.1'):
+        for typ, pools in ERA_POOL.items():
+            vals = pools['both'] + pools[xsd]
+            for mode in ('2.0', '3.1'):
+                for tz in (None, '-05:00'):
+                    for x in vals:
+                        for y in vals:
+                            yield {'mode': mode, 'xsd': xsd, 'tz': tz, 'a': [typ, x], 'b': [typ, y]}
+
+
+def _year_of(lex):
+    return int(lex[:lex.index('-', 1)])
+
+
+def judge_era(case, rec: Recorder | None = None) -> list[Disc]:
+    mode, xsd, tz, a, b = case['mode'], case['xsd'], case.get('tz'), case['a'], case['b']
+    discs: list[Disc] = []
+    sa, sb = A.xpath_of(a), A.xpath_of(b)
+    tzm = TZ_MIN[tz]
+    n = 0
+    for op in VAL_OPS + GEN_OPS:
+        ref = C.value_compare(C.GENERAL.get(op, op), a, b, mode, tzm, xsd)
+        if ref is None:
+            continue
+        n += 1
+        expr = f'{sa} {op} {sb}'
+        obs = observe(mode, expr, tz, xsd=xsd)
+        _judge_outcome({ref[1]}, obs, 'era', f'{a[0]}-xsd{xsd}', op, f'{mode} xsd={xsd} tz={tz} {expr}', discs)
+    if rec is not None:
+        ya, yb = _year_of(a[1]), _year_of(b[1])
+        classes = ['era:pair', f'era:xsd-{xsd}'] + (['era:across-era'] if (ya <= 0) != (yb <= 0) else []) + \
+            (['era:across-9999'] if (ya > 9999) != (yb > 9999) else [])
+        rec.case(['era', mode, xsd, tz, a, b], nontrivial=ya != yb, classes=classes, n=n,
+                 sample={'check': 'era', 'mode': mode, 'xsd': xsd, 'a': sa, 'b': sb})
+    return discs
+
+
+# --------------------------------------------------------------------------
 # strategies
 # --------------------------------------------------------------------------
 _mode = st.sampled_from(['3.1', '3.1', '2.0', '3.0'])
@@ -954,6 +1104,26 @@ def pathlogic_case(draw):
             'operands': ops, 'formula': f, 'set': draw(st.sampled_from(sorted(_PATH_SETS)))}
 
 
+_CNUM = st.sampled_from([['integer', '0'], ['integer', '1'], ['integer', '2'], ['integer', '-1'], ['decimal', '1.5'], ['double', 'NaN'],
+                         ['integer', '100'], ['double', '1'], ['decimal', '0.0'], ['integer', '12'], ['double', 'INF']])
+_CSTR = st.sampled_from(['', 'abc', '0', '1', '2', 'true', 'false', '1.0', ' 12 ', '1e2', 'b']).map(lambda x: ['string', x])
+_CNODE = st.sampled_from(_COMPAT_TEXTS).map(lambda x: ['node', x])
+_CBOOL = st.sampled_from([[['boolean', 'true']], [['boolean', 'false']]])
+_CITEM = st.one_of(_CNUM, _CSTR, _CNODE)
+_CSEQ = st.one_of(st.lists(_CITEM, min_size=1, max_size=1), st.lists(_CITEM, min_size=0, max_size=3))
+
+
+@st.composite
+def compat_case(draw):
+    if draw(st.integers(0, 9)) < 5:
+        a, b = draw(_CBOOL), draw(st.one_of(_CSEQ, _CBOOL))
+        if draw(st.booleans()):
+            a, b = b, a
+    else:
+        a, b = draw(_CSEQ), draw(_CSEQ)
+    return {'mode': draw(st.sampled_from(['2.0', '3.1', '3.0'])), 'A': a, 'B': b}
+
+
 _HTZ = st.sampled_from(['+05:00', '-05:00', None, 'Z', '+14:00', '-10:00'])
 _TEMPORAL_TYPES = list(C.DATETIMES + C.GREGORIAN)
 
@@ -997,9 +1167,9 @@ def matrix_cases(lo, hi, mode):
 # --------------------------------------------------------------------------
 # module interface
 # --------------------------------------------------------------------------
-_STRATS = {'pathlogic': pathlogic_case(), 'tzhistory': tzhistory_case(), 'value': value_case(), 'general': general_case(), 'general10': general10_case, 'order': order_case(),
+_STRATS = {'compat': compat_case(), 'pathlogic': pathlogic_case(), 'tzhistory': tzhistory_case(), 'value': value_case(), 'general': general_case(), 'general10': general10_case, 'order': order_case(),
            'ebv': ebv_case, 'logic': logic_case}
-_JUDGES = {'pathlogic': judge_pathlogic, 'tzhistory': judge_tzhistory, 'value': judge_value, 'matrix': judge_value, 'general': judge_general, 'general10': judge_general10,
+_JUDGES = {'compat': judge_compat, 'era': judge_era, 'pathlogic': judge_pathlogic, 'tzhistory': judge_tzhistory, 'value': judge_value, 'matrix': judge_value, 'general': judge_general, 'general10': judge_general10,
            'order': judge_order, 'ebv': judge_ebv, 'logic': judge_logic, 'empty': judge_empty}
 
 
@@ -1025,9 +1195,11 @@ def jobs(tier, seed):
         for i in range(k):
             out.append({'check': 'matrix', 'mode': '2.0', 'lo': total * i // k, 'hi': total * (i + 1) // k})
     out.append({'check': 'empty'})
+    out.append({'check': 'era', 'part': 0})
+    out.append({'check': 'era', 'part': 1})
     plan = {'value': (2, 2500, 4, 40000), 'general': (3, 2500, 5, 40000), 'general10': (1, 1500, 1, 6000),
             'order': (2, 1200, 3, 15000), 'ebv': (1, 2500, 2, 20000), 'logic': (1, 2500, 2, 30000),
-            'pathlogic': (2, 2000, 3, 25000), 'tzhistory': (1, 2500, 2, 25000)}
+            'pathlogic': (2, 2000, 3, 25000), 'tzhistory': (1, 2500, 2, 25000), 'compat': (1, 3000, 2, 30000)}
     for chk, (nq, pq, nt, pt) in plan.items():
         for i in range(nq if q else nt):
             out.append({'check': chk, 'shard': i, 'n': pq if q else pt, 'seed': derive_seed(seed, 'C07', chk, i)})
@@ -1037,6 +1209,8 @@ def jobs(tier, seed):
 def _enum_cases(job):
     if job['check'] == 'matrix':
         return matrix_cases(job['lo'], job['hi'], job['mode'])
+    if job['check'] == 'era':
+        return (c for i, c in enumerate(era_cases()) if i % 2 == job['part'])
     atoms = [A.pool_of(t)[0] for t in A.ATOMIC_TYPES] + [['double', 'NaN'], ['string', '']]
     return ({'mode': m, 'a': a, 'side': s} for m in ('2.0', '3.1') for a in atoms for s in ('left', 'right'))
 
@@ -1044,7 +1218,7 @@ def _enum_cases(job):
 def run_job(job, rec: Recorder):
     chk = job['check']
     jd = _JUDGES[chk]
-    if chk in ('matrix', 'empty'):
+    if chk in ('matrix', 'empty', 'era'):
         for case in _enum_cases(job):
             rec.discs_of(chk, case, jd(case, rec))
         return
@@ -1054,7 +1228,7 @@ def run_job(job, rec: Recorder):
 def shrink_job(job, bucket, budget):
     chk = job['check']
     jd = _JUDGES[chk]
-    if chk in ('matrix', 'empty'):
+    if chk in ('matrix', 'empty', 'era'):
         for case in _enum_cases(job):
             for d in jd(case):
                 if d.bucket == bucket:
